@@ -30,7 +30,20 @@ def refinement(*conditions: Union[SymbolicExpression[T], bool, Predicate]) -> Sy
     new_conditions_root = ExceptIf(SymbolicExpression._current_parent_(), new_branch)
     new_branch._node_.weight = RDREdge.Refinement
     new_conditions_root._parent_ = prev_parent
+    _replace_operand_(prev_parent, current_node, new_conditions_root)
     return new_conditions_root.right
+
+
+def _replace_operand_(parent: SymbolicExpression, old_operand: SymbolicExpression,
+                      new_operand: SymbolicExpression) -> None:
+    """
+    Make a binary operator evaluate the new operand in place of the operand it replaced.
+    """
+    if isinstance(parent, BinaryOperator):
+        if parent.left is old_operand:
+            parent.left = new_operand
+        elif parent.right is old_operand:
+            parent.right = new_operand
 
 
 def alternative(*conditions: Union[SymbolicExpression[T], bool, Predicate]) -> SymbolicExpression[T]:
@@ -87,6 +100,5 @@ def alternative_or_next(type_: Union[RDREdge.Alternative, RDREdge.Next],
         raise ValueError(f"Invalid type: {type_}, expected one of: {RDREdge.Alternative}, {RDREdge.Next}")
     new_branch._node_.weight = type_
     new_conditions_root._parent_ = prev_parent
-    if isinstance(prev_parent, BinaryOperator):
-        prev_parent.right = new_conditions_root
+    _replace_operand_(prev_parent, current_node, new_conditions_root)
     return new_conditions_root.right
